@@ -32,17 +32,27 @@ Definition parse_signed_dec (s : bytes) : option Z :=
   | [] => None
   end.
 
+(* big.Int.SetString(s, 16): optional sign, then hexadecimal digits (no prefix, no underscores) *)
+Definition parse_signed_hex (s : bytes) : option Z :=
+  match s with
+  | b :: r =>
+    if N.eqb (bN b) 45 then option_map (fun n => - Z.of_N n) (parse_hex_N r)
+    else if N.eqb (bN b) 43 then option_map Z.of_N (parse_hex_N r)
+    else option_map Z.of_N (parse_hex_N s)
+  | [] => None
+  end.
+
 Definition parse_int (w : N) (s : bytes) : outcome Z :=
   if bytes_eqb s s_true then (if N.eqb w 1 then Ok 1 else Err)
   else if bytes_eqb s s_false then (if N.eqb w 1 then Ok 0 else Err)
   else match strip_prefix p_u0x s with
-  | Some h => match parse_hex_N h with Some n => Ok (Z.of_N n) | None => Err end
+  | Some h => match parse_signed_hex h with Some x => Ok x | None => Err end
   | None =>
     match strip_prefix p_s0x s with
     | Some h =>
-      match parse_hex_N h with
-      | Some n => (* x.Bit(BitSize-1) == 1  ->  x - 2^BitSize *)
-        if N.testbit n (w - 1) then Ok (Z.of_N n - 2 ^ Z.of_N w) else Ok (Z.of_N n)
+      match parse_signed_hex h with
+      | Some x => (* x.Bit(BitSize-1) == 1  ->  x - 2^BitSize; Bit reads a negative x in two's complement *)
+        if Z.testbit x (Z.of_N (w - 1)) then Ok (x - 2 ^ Z.of_N w) else Ok x
       | None => Err
       end
     | None => match parse_signed_dec s with Some z => Ok z | None => Err end
